@@ -23,10 +23,52 @@ func scaleCases(tier string) []scalekit.Case {
 	for _, n := range scale.Sizes(40, 257) {
 		out = append(out, scalekit.Case{Shape: "wide-target", N: n})
 	}
+	for _, n := range scale.Sizes(40, 129) {
+		out = append(out, scalekit.Case{Shape: "many-augments", N: n})
+	}
 	return out
 }
 
+func checkManyAugments(cs scalekit.Case) scalekit.Verdict {
+	files := scale.ManyAugments(cs.N)
+	for _, rev := range []bool{false, true} {
+		ms, errs, lerr := scalekit.Load(files, rev)
+		if lerr != nil || len(errs) > 0 {
+			return scalekit.Bad("augment-of-an-existing-target-reported", "no errors", fmt.Sprint(lerr, dump.Errors(errs)))
+		}
+		top := toEntry(ms.Modules["b"]).Dir["top"]
+		if len(top.Dir) != 1+2*cs.N {
+			return scalekit.Bad("augments-not-applied-once-each", fmt.Sprintf("%d children of top", 1+2*cs.N), fmt.Sprint(len(top.Dir)))
+		}
+		for i := 0; i < cs.N; i++ {
+			ns := fmt.Sprintf("urn:x%d", i)
+			for _, path := range [][]string{{fmt.Sprintf("l%d", i)}, {fmt.Sprintf("c%d", i)}, {fmt.Sprintf("c%d", i), "in"}} {
+				e := scalekit.Down(top, path...)
+				if e == nil {
+					return scalekit.Bad("augment-not-applied", fmt.Sprint(path), "missing")
+				}
+				if n := e.Namespace(); n == nil || n.Name != ns {
+					return scalekit.Bad("grafted-node-namespace", ns, fmt.Sprint(n))
+				}
+			}
+			if i+1 < cs.N {
+				e := scalekit.Down(top, fmt.Sprintf("c%d", i), fmt.Sprintf("chained%d", i+1))
+				if e == nil {
+					return scalekit.Bad("chained-augment-not-applied", fmt.Sprintf("c%d/chained%d", i, i+1), "missing")
+				}
+				if n := e.Namespace(); n == nil || n.Name != fmt.Sprintf("urn:x%d", i+1) {
+					return scalekit.Bad("grafted-node-namespace", fmt.Sprintf("urn:x%d", i+1), fmt.Sprint(n))
+				}
+			}
+		}
+	}
+	return scalekit.OK()
+}
+
 func checkScale(cs scalekit.Case) scalekit.Verdict {
+	if cs.Shape == "many-augments" {
+		return checkManyAugments(cs)
+	}
 	var files []dump.File
 	var path []string
 	switch cs.Shape {
